@@ -358,6 +358,57 @@ def export_twice_fn():
     return fn, len(BT)
 
 
+def seed_history_fn():
+    """the table written for a seed is a function of the seed and the collections alone: the same call gives the same text in a freshly loaded writer module,
+    after an export with ANOTHER seed, after an export of a SUBSET of the genes, and when the collections arrive as a one-shot iterator instead of a list"""
+
+    def fn(seed, other, flavor):
+        seed, other, flavor = concretize(seed, other, flavor)
+        with untraced():
+            import importlib
+            import sys
+
+            def fresh():
+                name = "inscripta.biocantor.io.ncbi.tbl_writer"
+                return importlib.reload(sys.modules[name]) if name in sys.modules else importlib.import_module(name)
+
+            def colls(which):
+                out = []
+                for tag, (a, b) in (("A", (2, 11)), ("B", (20, 32))):
+                    if tag not in which:
+                        continue
+                    tx = TranscriptInterval([a], [b], PLUS, [a], [b], [CDSFrame.ZERO], transcript_id="tx" + tag, sequence_name="chr1", guid=None,
+                                            parent_or_seq_chunk_parent=chrom_parent(GENOME))
+                    out.append(GeneInterval([tx], gene_id="g" + tag, gene_symbol="sym" + tag, gene_type=Biotype.protein_coding, sequence_name="chr1",
+                                            parent_or_seq_chunk_parent=chrom_parent(GENOME)))
+                return [AnnotationCollection(genes=out, sequence_name="chr1", parent_or_seq_chunk_parent=chrom_parent(GENOME))]
+
+            def export(mod, cs, sd):
+                buf = io.StringIO()
+                with warnings.catch_warnings():
+                    warnings.simplefilter("ignore")
+                    mod.collection_to_tbl(cs, buf, random_seed=sd, genbank_flavor=[mod.GenbankFlavor.EUKARYOTIC, mod.GenbankFlavor.PROKARYOTIC][flavor])
+                return buf.getvalue()
+
+            ref = export(fresh(), colls("AB"), seed)
+            if not ref.startswith(">Features chr1") or "protein_id" not in ref:
+                return False
+            m = fresh()
+            export(m, colls("AB"), other)
+            ok = export(m, colls("AB"), seed) == ref
+            m = fresh()
+            export(m, colls("B"), seed)
+            ok = ok and export(m, colls("AB"), seed) == ref
+            m = fresh()
+            ok = ok and export(m, iter(colls("AB")), seed) == ref and export(m, (c for c in colls("AB")), seed) == ref and export(m, tuple(colls("AB")), seed) == ref
+            # two transcripts never share an identifier
+            pid = {ln.split("\t")[-1] for ln in ref.splitlines() if "\tprotein_id\t" in ln}
+            tid = {ln.split("\t")[-1] for ln in ref.splitlines() if "\ttranscript_id\t" in ln}
+            return ok and len(pid) == 2 and len(tid) == 2 and not (pid & tid)
+
+    return fn
+
+
 def reproducible_fn():
     def fn(seed):
         seed = concretize(seed)
@@ -433,6 +484,12 @@ def obligations(tier):
                    desc="exporting one in-memory collection three times with the same seed (rRNA / tRNA / ncRNA / coding genes, with and without product qualifiers, "
                         "single- and two-exon, both flavours) gives identical text and leaves the collection's dictionary form unchanged",
                    bounds="5 biotypes x exon count x 3 qualifier patterns x 2 flavours (realised)", examples=[dict(b=0, two_exons=False, prod=1, flavor=0), dict(b=3, two_exons=True, prod=2, flavor=1)]))
-    out.append(Obl("seeded_output_reproducible", reproducible_fn(), dict(seed=int), lambda seed: 1 <= seed and seed <= 3, budget=120, cost=10,
+    out.append(Obl("seeded_output_reproducible", reproducible_fn(), dict(seed=int), lambda seed: 0 <= seed and seed <= 3, budget=120, cost=10,
                    desc="two exports with the same random_seed are byte-identical", bounds="seeds 1..3", examples=[dict(seed=2)]))
+    out.append(Obl("table_is_a_function_of_seed_and_collections", seed_history_fn(), dict(seed=int, other=int, flavor=int),
+                   lambda seed, other, flavor: 0 <= seed and seed <= 5 and 0 <= other and other <= 5 and seed != other and 0 <= flavor and flavor <= 1, budget=600, cost=40,
+                   desc="feature table of two coding genes for a seed: the same text in a freshly loaded writer module, after an export with another seed, after an export "
+                        "of one of the genes alone, and when the collections are handed over as an iterator / generator / tuple; identifiers of different transcripts differ",
+                   bounds="seeds 0..5 x another seed 0..5 x 2 flavours (closed by the solver), writer module reloaded inside the body",
+                   examples=[dict(seed=5, other=3, flavor=0), dict(seed=0, other=1, flavor=1)]))
     return out
